@@ -476,7 +476,8 @@ impl Prop for C03 {
                         continue;
                     }
                     let k2 = key.clone();
-                    let (i2, c2) = crate::core::shrink_input(&input, &cuts, &mut |i, c| std::str::from_utf8(i).is_ok() && matches!(check(i, c), Err((k, _)) if k == k2));
+                    // domain B inputs are not shrunk: deleting spans would leave the well-nested domain
+                    let (i2, c2) = if domain_b { (input.clone(), cuts.clone()) } else { crate::core::shrink_input(&input, &cuts, &mut |i, c| std::str::from_utf8(i).is_ok() && matches!(check(i, c), Err((k, _)) if k == k2)) };
                     let msg = match check(&i2, &c2) {
                         Err((_, m)) => m,
                         _ => msg,
